@@ -28,7 +28,7 @@ from typing import Any, List, Optional, NamedTuple
 
 from .exception import MementoException
 from .logging import log
-from .metadata import Memento
+from .metadata import Memento, ResultType
 from .storage import StorageBackend
 from .context import InvocationContext
 from .reference import FunctionReferenceWithArguments
@@ -66,7 +66,11 @@ def process_existing_memento(
 
     try:
         # If result already exists, deserialize and return
-        if ignore_result:
+        if (
+            ignore_result
+            and existing_memento.invocation_metadata.result_type != ResultType.exception
+        ):
+            # Exceptions are still propagated when the result is ignored
             log.debug(
                 "Result of {} was already memoized and is ignored".format(
                     str(fn_reference_with_args)
